@@ -88,6 +88,9 @@ func worldGroups(w *World) {
 			if variant == 1 {
 				f["remote_port"] = 20002
 			}
+			if variant == 3 {
+				f["remote_port"] = 0 // "any port" is not the group's port either
+			}
 		case "http":
 			f["proxy_type"] = "http"
 			f["custom_domains"] = []string{domain}
@@ -393,6 +396,10 @@ func worldGroups(w *World) {
 				key = []string{"key-wrong", "", "key-righ", "key-right-x", "KEY-RIGHT"}[r.Intn(5)]
 			case 1:
 				variant = 1
+				if kind == "tcp" && !port0 && len(members) > 0 && r.Intn(2) == 0 {
+					variant = 3
+					w.Probe("groups.join_fixed_port_group_with_port_0")
+				}
 			case 2:
 				if kind != "tcp" && len(members) > 0 {
 					variant = 2 // a join that fails half-way: the first host fits the group, the second does not
